@@ -480,7 +480,7 @@ class RegFile(RegisterObject):
                     else:
                         assert (
                             member_type._parent_offset_ + member_type._unit_count_()
-                            <= existing_name._parent_offset_
+                            <= existing_type._parent_offset_
                         ), f"member '{name}' (0x{member_type._parent_offset_}-0x{member_type._parent_offset_+member_type._unit_count_()}) overlaps with member '{existing_name}' (0x{existing_type._parent_offset_}-0x{existing_type._parent_offset_+existing_type._unit_count_()}) of type {cls.__name__}"
 
                 members[name] = member_type
